@@ -207,7 +207,7 @@ fn check_family(f: &FamGrammar, maxlen: usize, res: &mut ShardResult) {
         // look-ahead along the accepted token string: leaves in document order
         let leaves: Vec<usize> = (0..xt.nodes.len()).filter(|&i| xt.nodes[i].children.is_empty() && xt.nodes[i].end > xt.nodes[i].start).collect();
         // (not for GLR grammars: there a leaf may carry the parse state of a stack version that was later dropped)
-        if leaves.len() == toks.len() && f.kind != "G3" {
+        if leaves.len() == toks.len() && f.kind != "G3" && f.kind != "G8" {
             let mut nodes = vec![];
             fn collect<'t>(n: tree_sitter::Node<'t>, out: &mut Vec<tree_sitter::Node<'t>>) { if n.child_count() == 0 { if n.end_byte() > n.start_byte() { out.push(n); } } else { for k in 0..n.child_count() { collect(n.child(k as u32).unwrap(), out); } } }
             collect(tree.root_node(), &mut nodes);
@@ -312,7 +312,7 @@ pub fn worker(ctx: &Ctx, res: &mut ShardResult) {
     let (n1, n2, n3, _) = crate::checks::c03::params(&ctx.tier);
     for (i, f) in family_list(&ctx.tier).iter().enumerate() {
         if !ctx.mine(i) { continue; }
-        let n = match f.kind { "G1" => n1, "G2" => n2, "G4" => 5.min(n1.max(4)), _ => n3 };
+        let n = match f.kind { "G1" => n1, "G2" => n2, "G4" | "G7" => 5.min(n1.max(4)), "G8" => 6.min(n1.max(4) + 1), "G10" => 4.min(n1.max(3)), _ => n3 };
         check_family(f, n, res);
         if res.too_many() { return; }
         if ctx.out_of_time() { res.caps.push("wall-clock budget reached".into()); return; }
